@@ -122,10 +122,11 @@ func VerifRunNTSKEServerTLS(ctx context.Context, log *slog.Logger,
 	runNTSKEServerTLS(ctx, log, listener, localPort, provider)
 }
 
-func VerifNewNTSKEMsg(ctx context.Context, log *slog.Logger, localIP net.IP, localPort int,
-	data *ntske.Data, provider *ntske.Provider) (ntske.ExchangeMsg, error) {
-	return newNTSKEMsg(ctx, log, localIP, localPort, data, provider)
-}
+// VerifNewNTSKEMsg is set by zz_verif_opt_kemsg.go (its own build tag): when the tree no
+// longer has newNTSKEMsg in the expected shape the simulator is built without it and the
+// worlds use the scripted message only.
+var VerifNewNTSKEMsg func(ctx context.Context, log *slog.Logger, localIP net.IP, localPort int,
+	data *ntske.Data, provider *ntske.Provider) (ntske.ExchangeMsg, error)
 
 // VerifTSSMuHeld reports (and clears) a timestamp-store mutex left locked by a
 // goroutine that was unwound; used by the harness between runs.
